@@ -39,7 +39,7 @@ def swarm_weights(r: random.Random, families=None, always=()):
 
 def gen_history(seed: int, *, n_events, families=None, always=(), start=None, fault_rate=0.0,
                 src_fault_rate=0.0, ckpt=0.12, reopen=0.05, restart=0.03, observe=0.03, jump=0.02,
-                fork=0.01, every_event_ckpt=False, forms=("stream", "stream", "path", "dir"),
+                fork=0.01, every_event_ckpt=False, forms=("stream", "stream", "path", "dir", "path_keep"),
                 op_filter=None, held_rate=None, warmup=True):
     """Return (events, swarm description)."""
     S = Streams(seed)
@@ -97,7 +97,9 @@ def gen_history(seed: int, *, n_events, families=None, always=(), start=None, fa
         elif k < p_ck + reopen + restart + observe + jump:
             mag = r_clock.choice([3600, 86400, 86400 * 365, 86400 * 3650, 60])
             ev = {"op": "clock_jump", "by": r_clock.choice([-1, 1]) * mag * r_clock.random()}
-        elif k < p_ck + reopen + restart + observe + jump + fork and ndecks < 2:
+        elif k < p_ck + reopen + restart + observe + jump + 0.01:
+            ev = {"op": "clobber_source", "how": r_faults.choice(["garbage", "truncate", "delete"])}
+        elif k < p_ck + reopen + restart + observe + jump + 0.01 + fork and ndecks < 2:
             ev = {"op": "fork", "sink": "seekable"}
             ndecks = 2
         else:
@@ -130,7 +132,7 @@ def start_recipe(r: random.Random, pool="default", xform_rate=0.0):
         rec = {"deck": "default"}
     else:
         rec = {"deck": r.choice(decks)}
-    rec["form"] = r.choice(["stream", "stream", "path", "dir"])
+    rec["form"] = r.choice(["stream", "stream", "path", "dir", "path_keep"])
     if rec["form"] == "stream":
         rec["pos"] = r.choice([0, 0, 3, 10 ** 7])
     if r.random() < xform_rate:
